@@ -39,6 +39,11 @@
 #include <fcppt/parse/skipper/result.hpp>
 #include <fcppt/parse/skipper/make_success.hpp>
 #include <fcppt/parse/skipper/epsilon.hpp>
+#include <fcppt/parse/skipper/basic_literal.hpp>
+#include <fcppt/parse/skipper/sequence_decl.hpp>
+#include <fcppt/parse/skipper/sequence_impl.hpp>
+#include <fcppt/parse/skipper/repetition_decl.hpp>
+#include <fcppt/parse/skipper/repetition_impl.hpp>
 #include <fcppt/either/make_failure.hpp>
 #include <fcppt/either/match.hpp>
 #include <fcppt/optional/object.hpp>
@@ -94,8 +99,17 @@ template <int Id> struct abs_parser_unit : private p::tag {
     return fcppt::either::make_failure<fcppt::unit>(p::error<Ch>{std::basic_string<Ch>{"y"}, p::fatal_tag{}});
   }
 };
+template <int Id> struct abs_skip : private p::skipper::tag {   // an abstract sub-skipper (driven by the same script as the abstract parsers)
+  template <typename Ch> p::skipper::result<Ch> skip(fcppt::reference<p::basic_stream<Ch>>) const {
+    int v = 0; int const r = vf_child(Id, 0, &v);
+    if (r == 0) return p::skipper::make_success<Ch>();
+    if (r == 1) return p::skipper::result<Ch>{p::error<Ch>{std::basic_string<Ch>{"s"}}};
+    return p::skipper::result<Ch>{p::error<Ch>{std::basic_string<Ch>{"t"}, p::fatal_tag{}}};
+  }
+};
 using P1 = abs_parser<1>; using P2 = abs_parser<2>; using U1 = abs_parser_unit<1>;
 template <typename R> static int outcome(R const &r){ return fcppt::either::match(r, [](p::error<char> const &e){ return e.is_fatal() ? 2 : 1; }, [](auto const &){ return 0; }); }
+template <typename S> static int run_skip(S const &q){ abs_stream s; return outcome(q.skip(fcppt::make_ref(static_cast<p::basic_stream<char> &>(s)))); }
 template <typename Parser> static auto run(Parser const &q){ abs_stream s; return q.parse(fcppt::make_ref(static_cast<p::basic_stream<char> &>(s)), abs_skipper{}); }
 extern "C" {
 int vf_alternative(int *out){ auto const r = run(p::alternative<P1, P2>{P1{}, P2{}}); if (r.has_success()) *out = r.get_success_unsafe(); return outcome(r); }
@@ -116,4 +130,9 @@ int vf_char(int *out){ auto const r = run(p::basic_char<char>{}); if (r.has_succ
 int vf_literal(char c){ return outcome(run(p::basic_literal<char>{c})); }
 int vf_string2(char c0, char c1){ return outcome(run(p::basic_string<char>{std::string{c0, c1}})); }
 int vf_phrase_parse(int *out){ abs_stream s; auto const r = p::phrase_parse(P1{}, static_cast<p::basic_stream<char> &>(s), abs_skipper{}); if (r.has_success()) *out = r.get_success_unsafe(); return outcome(r); }
+int vf_skip_sequence(void){ return run_skip(p::skipper::sequence<abs_skip<1>, abs_skip<2>>{abs_skip<1>{}, abs_skip<2>{}}); }
+int vf_skip_repetition(void){ return run_skip(p::skipper::repetition<abs_skip<1>>{abs_skip<1>{}}); }
+int vf_skip_epsilon(void){ return run_skip(p::skipper::epsilon{}); }
+int vf_skip_literal(char c){ return run_skip(p::skipper::basic_literal<char>{c}); }
+int vf_separator(int *n, int *out){ auto const r = run(p::separator<P1, abs_parser_unit<2>>{P1{}, abs_parser_unit<2>{}}); if (r.has_success()) { auto const &v = r.get_success_unsafe(); *n = static_cast<int>(v.size()); for (unsigned i = 0; i < 3 && i < v.size(); ++i) out[i] = v[i]; } return outcome(r); }
 }
